@@ -22,7 +22,8 @@ META = {
         "C08.A1 system bytes flow unchanged: send_response -> _create_message_for_function -> header constructor (both protocols, positional/keyword binding checked against the constructor signature)",
         "C08.X1 nothing that can raise precedes the message_received hand-over in the protocol layer (uncatalogued S/F and malformed bodies must reach the handler)",
         "C08.C1 CallbackHandler: membership test and call use the same lookup (registered callback, else _on_<name> of the target)",
-        "C08.S1 on the serial line a queued (reply) block is dequeued only when it is about to be transferred and is resolved exactly once (shared with C17.P2)",
+        "C08.G1 every message received while COMMUNICATING is handed to the callback dispatcher, unchanged and under no other condition (shared with C07.P1)",
+        "C08.S1 on the serial line a queued (reply) block is dequeued only when it is about to be transferred and is resolved exactly once (shared with C17.P2); HSMS frames are cut from the byte stream exactly (shared with C04.P1)",
         "C08.R1 no request function leaves its response queue registered (a stale entry swallows a later primary carrying the same system bytes, which then gets no reply)",
     ],
     "does_not_decide": ["the content of the secondary beyond its class", "whether communication is established (C07.P1)"],
@@ -100,6 +101,16 @@ def check_handle_stream_function(ctx):
         a0 = c.args[0] if c.args else None
         ok = isinstance(a0, ast.Call) and isinstance(a0.func, ast.Call) and call_name(a0.func) == "self.stream_function" and [norm(x) for x in a0.func.args] == [f"{param}.header.stream", "0"] and not a0.args
         ctx.ob("C08.P1", q, ok, "the abort is function 0 of the request's stream" if ok else f"abort `{norm(a0)}` is not stream_function(message.header.stream, 0)()", key="abort-class", where=f.where)
+        if ok:
+            # "for all stream/function numbers (catalogued or not)": the lookup of the abort class must not itself fail
+            look = repo.method("SecsHandler", "stream_function")
+            ctx.touch(look)
+            can_raise = any(isinstance(x, ast.Raise) for x in walk_no_nested(look.node))
+            inner_try = any(isinstance(t, ast.Try) and any(x is c for x in ast.walk(t)) for h in ast.walk(fn) if isinstance(h, ast.ExceptHandler) for t in ast.walk(h))
+            total = not can_raise or inner_try
+            ctx.ob("C08.P1", q, total, "the abort class is available for every stream" if total else
+                   "the abort class is looked up with stream_function(), which raises KeyError for a stream without a catalogued function 0: inside the exception handler this escapes and the primary gets no reply at all "
+                   "(input: a W-bit primary of a user-registered stream, e.g. S64F1 with S64F1/S64F2 added to the catalogue, whose callback raises)", key="abort-total", where=f.where)
     # P2: W-bit
     for n, c in normal_sends:  # the property speaks about messages handled without error; the abort path is not constrained
         ok = any("require_response" in t and v for t, v in cnd.facts(cfg, n))
@@ -420,6 +431,24 @@ def run(ctx):
 
     check_dispatcher(ctx, "C08.S1", wakeups=True, consumers=False, reconnect=False)
     report.share(ctx, "C08.S1", check_reassembly)
+    # ... and only if its frame is cut from the byte stream exactly, complete and without leaving frames behind (shared with C04.P1)
+    from .c04 import check_framing
+
+    report.share(ctx, "C08.S1", check_framing)
+    # "while communication is established, each primary ... is answered": every message received in COMMUNICATING reaches the
+    # callback dispatcher, unchanged and under no further condition (the gate rules of C07.P1)
+    from .c07 import check_message_received
+
+    sub = type(ctx)(ctx.prop, ctx.tier, ctx.seed, ctx.repo)
+    check_message_received(sub)
+    kept = [o for o in sub.obligations if o["key"] in ("gate-open", "dispatch-arg", "one-dispatch")]
+    ctx.require(len(kept) >= 3, "C08.G1: the gate rules of GemHandler._on_message_received were not produced")
+    for o in kept:
+        o = dict(o)
+        o["rule"] = "C08.G1"
+        ctx.obligations.append(o)
+    for kind in ("files", "functions"):
+        ctx.analysed[kind] |= sub.analysed[kind]
     check_stale_registrations(ctx)
     check_handle_stream_function(ctx)
     check_callbacks(ctx)
